@@ -209,7 +209,7 @@ impl Cur for QuestionIterator<'_> {
     }
 }
 
-fn sec_base(d: &Decoded, sec: Sec) -> usize {
+pub fn sec_base(d: &Decoded, sec: Sec) -> usize {
     match sec {
         Sec::Answer => 0,
         Sec::Authority => d.msg.an.len(),
@@ -218,7 +218,7 @@ fn sec_base(d: &Decoded, sec: Sec) -> usize {
 }
 
 /// Does the live cursor designate record `idx` of `sec` in the object's current bytes?
-fn designates<T: Cur>(item: &T, sec: Sec, idx: usize) -> Result<(), String> {
+pub fn designates<T: Cur>(item: &T, sec: Sec, idx: usize) -> Result<(), String> {
     let bytes = item.parsed_packet().packet().to_vec();
     let d = decode(&bytes).map_err(|e| format!("bytes undecodable: {:?}", e))?;
     if sec == Sec::Question {
